@@ -414,7 +414,11 @@ def routed(ctx, rng):
 
         wit = {'routed': True}
         a = simdrv.RawClient(sim.address)
-        a.register()
+        try:
+            a.register()
+        except RuntimeError as exc:
+            ctx.violation('register-not-answered', 'simulator with a route table: %r' % (exc,), wit)
+            return
         for _ in range(rng.choice([2, 4])):
             req, what = a_request()
             ok = exchange(a, req, what, wit)
@@ -447,8 +451,12 @@ def routed(ctx, rng):
         a.close()
         # later forwarded requests, on new sessions and interleaved between two of them
         b, c2 = simdrv.RawClient(sim.address), simdrv.RawClient(sim.address)
-        b.register()
-        c2.register()
+        try:
+            b.register()
+            c2.register()
+        except RuntimeError as exc:
+            ctx.violation('register-not-answered', 'new session after a forwarded request had timed out: %r' % (exc,), wit)
+            return
         for j in range(rng.choice([4, 6])):
             req, what = a_request()
             if j == 0:          # the first one differs in kind from the request that timed out
